@@ -42,7 +42,7 @@ func TestC01(t *testing.T) {
 }
 
 var profileC02 = []kindW{{"mocksend", 6}, {"nftsend", 2}, {"mtsend", 2}, {"flow", 6}, {"round", 6}, {"recv", 3}, {"ack", 2}, {"update", 1},
-	{"commit", 1}, {"clean", 5}, {"recvclean", 2}, {"cleanflow", 5}, {"stale", 5}, {"replay", 8}, {"burst", 2}}
+	{"commit", 1}, {"clean", 5}, {"recvclean", 2}, {"cleanflow", 5}, {"stale", 5}, {"replay", 8}, {"burst", 2}, {"batch", 4}}
 
 func TestC02(t *testing.T) {
 	runProp(t, "C02",
@@ -72,7 +72,9 @@ func TestC03(t *testing.T) {
 			s := sim.New(buildWorld(c))
 			st := &sim.C03State{AckedOK: map[sim.ChanSeq]int{}, AckHash: map[sim.ChanSeq][]byte{}}
 			s.Checkers = []func(*sim.Sim, *sim.Step) *sim.Violation{sim.CheckC03(st)}
-			out := runOps(s, append(tokenPreamble(c.N), c.Ops...))
+			// fixed prefix: one transfer to an undecodable receiver, driven to completion (a processed error ack)
+			prefix := []sim.Op{{K: "nftsend", A: 0, B: 0, C: 0, D: 0, U: 3}, {K: "round", A: 0}}
+			out := runOps(s, append(append(tokenPreamble(c.N), prefix...), c.Ops...))
 			col.AddLabels(s.Labels)
 			if s.Labels["processed-error-ack"] > 0 && s.Labels["forged-or-duplicate-ack"] > 0 {
 				col.MarkNontrivial(map[string]any{"n": c.N, "trace": tail(s.Trace, 12)})
@@ -110,7 +112,11 @@ func TestC10(t *testing.T) {
 		func(c WorldCase, col *Collector) outcome {
 			s := sim.New(buildWorld(c))
 			s.Checkers = []func(*sim.Sim, *sim.Step) *sim.Violation{sim.CheckC10(sim.NewC10State())}
-			out := runOps(s, append(tokenPreamble(c.N), c.Ops...))
+			// fixed prefix: three packets on one channel, the second acknowledged first, a clean attempted past
+			// the unacknowledged first one, then everything acknowledged, cleaned, propagated and probed again
+			prefix := []sim.Op{{K: "mocksend", A: 0, B: 0}, {K: "mocksend", A: 0, B: 0}, {K: "mocksend", A: 0, B: 0}, {K: "round", A: 1},
+				{K: "clean", A: 0, C: 9}, {K: "round", A: 0}, {K: "clean", A: 0, C: 0}, {K: "cleanflow", A: 0}, {K: "stale", A: 0, B: 0}, {K: "stale", A: 1, B: 1}}
+			out := runOps(s, append(append(tokenPreamble(c.N), prefix...), c.Ops...))
 			col.AddLabels(s.Labels)
 			if s.Labels["clean-past-unacked"] > 0 && s.Labels["msg-at-or-below-clean-point"] > 0 {
 				col.MarkNontrivial(map[string]any{"n": c.N, "trace": tail(s.Trace, 12)})
